@@ -6,7 +6,9 @@
      listing   dir=name:hexdata,name:hexdata ; ...
      reps      name:hexdata,name:hexdata
    chk  F bound old new init trace        -> ok | bad      (bad = some event violates the safety condition)
-   dur  F init trace name hexdata         -> true | false  (name durably bound to data after the trace) *)
+   dur  F init trace name hexdata         -> true | false  (name durably bound to data after the trace)
+   goberr / fontserr  (arguments as the C06 requests gob / fonts) -> e0 | e1 : does the C06 program model of
+   writeGobWithOperations / api.installFonts return an error under the given fault plan *)
 open Model
 open Common
 
@@ -35,7 +37,27 @@ let listing_of s = List.map (fun e -> match String.index_opt e '=' with
     | Some i -> (dir_of (String.sub e 0 i), reps_of (String.sub e (i + 1) (String.length e - i - 1)))
     | None -> failwith ("bad listing " ^ e)) (split ';' s)
 
+let fault s = if s = "-" then None else Some (nat_of_int (int_of_string ("0x" ^ s)))
+let file_of e = match String.split_on_char ':' e with
+  | [n; md; d] -> (pos_of_hex_exn n, { fdata = bytes_of_hex d; fmode = n_of_hex md })
+  | _ -> failwith ("bad file entry " ^ e)
+let content_list s = List.map file_of (split ',' s)
+let tree_of_string s =
+  tree_of_list (List.map (fun e -> match String.index_opt e '=' with
+    | Some i -> (dir_of (String.sub e 0 i), content_list (String.sub e (i + 1) (String.length e - i - 1)))
+    | None -> failwith ("bad tree entry " ^ e)) (split ';' s))
+let eflag (e : oerr) = if e = None then "e0" else "e1"
+
 let dispatch fn args = match fn, args with
+  | "goberr", [f1; f2; kp; bound; init; d; n; data] ->
+    let ((e, _), _) = run_gob (fault f1) (fault f2) (nat_of_int (int_of_string ("0x" ^ kp))) (pos_of_hex_exn bound)
+                        (tree_of_string init) (dir_of d) (pos_of_hex_exn n) (bytes_of_hex data) in
+    eflag e
+  | "fontserr", [f1; f2; init; f; sc; junk; sok; names; rok] ->
+    if junk <> "" then failwith "junk not supported here" else
+    let (r, _) = run_fonts (fault f1) (fault f2) (tree_of_string init) (dir_of f) (content_of_list (content_list sc))
+                   [] (bool_of_str sok) (List.map pos_of_hex_exn (split ',' names)) (bool_of_str rok) in
+    eflag r.r_err
   | "chk", [f; bound; o; n; init; tr] ->
     (match check_trace (dir_of f) (pos_of_hex_exn bound) (reps_of o) (reps_of n) (listing_of init) (trace_of tr) with
      | None -> "ok" | Some _ -> "bad")
